@@ -10,6 +10,8 @@ From XcpProofs Require Import WalkerProofs.
 From XcpModel Require Import Extracted.
 From XcpProofs Require Import ExtractedOk.
 From Coq Require Import String.
+From XcpProofs Require Import PinnedSource.
+From XcpPins Require Import Pin_paths_parse_ignore Pin_paths_ignore_filter.
 
 (* the walk = process the selected entries, in order, until the first failure *)
 Theorem C17_walk_is_process_of_selected : forall cfg keep dex t r,
@@ -67,9 +69,18 @@ Theorem C17_src_filter_and_per_source_matcher :
   nth 2 x_walker_source_prelude ""%string = "letgitignore=parse_ignore(&source,config)?;"%string.
 Proof. split; reflexivity. Qed.
 
+(* ---- the glue functions this property's hand-written model mirrors are, token for token, the ones it was
+   validated against (an edit re-opens the obligation; harness/repin.py re-pins after re-validation) ---- *)
+Theorem C17_src_pin_paths_parse_ignore : pin_unchanged name_paths_parse_ignore.
+Proof. exact pin_paths_parse_ignore. Qed.
+Theorem C17_src_pin_paths_ignore_filter : pin_unchanged name_paths_ignore_filter.
+Proof. exact pin_paths_ignore_filter. Qed.
+
 Print Assumptions C17_walk_is_process_of_selected.
 Print Assumptions C17_pruned_walk_spec.
 Print Assumptions C17_selected_iff_no_ignored_ancestor.
 Print Assumptions C17_no_flag_no_filter.
 Print Assumptions C17_root_never_filtered.
 Print Assumptions C17_src_filter_and_per_source_matcher.
+Print Assumptions C17_src_pin_paths_parse_ignore.
+Print Assumptions C17_src_pin_paths_ignore_filter.
